@@ -37,8 +37,10 @@ def run(ck):
     if d["rc"] != 0:
         raise vlib.InfraError("driver failed rc=%s %s" % (d["rc"], d["err"][-1500:]))
     ck.ev.extra["sets"] = sum(1 for ln in open(t) if '"e":"lmp"' in ln)
-    ck.trace("cell-sets", "Trace_LMP", "Trace.cfg", t, nchunks=16 if ck.quick else 48, boundary=lambda ln: '"Reset"' in ln, timeout=3400,
-             what="disks, disks minus random cells (holes, islands), rings, rings with an island, sparse sets (many components), whole "
+    ck.trace("cell-sets", "Trace_LMP", "Trace.cfg", t, nchunks=16 if ck.quick else 48, boundary=lambda ln: '"Reset"' in ln, timeout=3400, max_rejections=100000,
+             what="belts up to 340 degrees wide at res 0..2 (3) with holes, centred on the prime meridian, the antimeridian and at random "
+                  "(the last kind contains the known finding: outline across both meridians); "
+                  "disks, disks minus random cells (holes, islands), rings, rings with an island, sparse sets (many components), whole "
                   "sub-trees, grid paths, single / few cells; around all pentagons, next to them, on the antimeridian, on icosahedron "
                   "edges (distortion vertices), random; every resolution 0..15, shuffled order; error paths (H3_NULL / invalid cell "
                   "inside the set, all base cells minus two); every malloc / calloc / free the library makes is a trace event")
